@@ -1328,10 +1328,16 @@ def check_permutation_applied(ck, facts, tier):
             # (permutations received as PARAMETERS are not judged: a helper runs under its caller's emptiness tests)
             if a is None or a.get("k") != "MCall" or a.get("n") not in ("get_perm", "get_inv_perm"):
                 return None
-            o = a.get("obj")
-            while o is not None and norm.strip(o).get("k") == "MCall":
-                o = norm.strip(o).get("obj")
-            o = env.alias(o) if o is not None else None
+            o = env.alias(a.get("obj")) if a.get("obj") is not None else None
+            hops = 0
+            while o is not None and hops < 12:
+                hops += 1
+                if o.get("k") == "MCall" and o.get("obj") is not None:
+                    o = env.alias(o["obj"])
+                elif o.get("k") == "Ref" and o.get("dk") == "local" and env.single_def(o.get("d")) is not None:
+                    o = env.alias(env.single_def(o["d"]))      # `const auto& mesh = space.get_trafo().get_mesh();` by value / auto
+                else:
+                    break
             if o is not None and o.get("k") == "Ref" and o.get("d") in pnames:
                 return "%s.%s" % (pnames[o["d"]], a["n"])
             return None
@@ -2536,12 +2542,16 @@ def check_setters(ck, tier):
     memo = {}
 
     def analyse(f, depth=0):
-        """-> (members assigned on every path, [(member, line) read before being assigned in this call], unknown)"""
+        """-> (members assigned on every path, [(member, line)] history dependences, unknown, members assigned on some path).
+        History dependence = the member's value at ENTRY flows into a stored value (read in a value context before this call
+        has assigned it), or decides whether the member is stored at all (a condition on the member guards the store;
+        `if(new == m) return;` / `if(m != new) m = new;` are exempt: there the member already holds the value)"""
         mk = f.d.get("decl")
         if mk in memo:
             return memo[mk]
-        memo[mk] = (set(), [], [])
+        memo[mk] = (set(), [], [], set())
         early, unknown = [], []
+        may = set()
 
         def reads(x, defined):
             for y in walk(x):
@@ -2549,48 +2559,66 @@ def check_setters(ck, tier):
                 if m is not None and m not in defined:
                     early.append((m, y.get("l")))
 
-        def expr(x, defined):
-            """evaluate the effects of expression x in evaluation order (operands before the store)"""
+        def expr(x, defined, value=True):
+            """effects of expression x in evaluation order (operands before the store); value: x feeds a stored value / argument"""
             if not isinstance(x, dict):
                 return
             k = x.get("k")
             if k == "Assign" or (k == "OpCall" and x.get("op") in _ASSIGN_OPS and len(x.get("a") or []) == 2):
                 lhs, rhs = (x.get("lhs"), x.get("rhs")) if k == "Assign" else (x["a"][0], x["a"][1])
                 op = x.get("op", "=")
-                expr(rhs, defined)
+                expr(rhs, defined, True)
                 m = member(lhs, f)
                 if m is not None:
+                    may.add(m)
                     if op != "=":
                         reads(lhs, defined)
                     else:
                         defined.add(m)
                 else:
-                    expr(lhs, defined)
+                    expr(lhs, defined, value)
                 return
             if k == "Un" and ("++" in str(x.get("op")) or "--" in str(x.get("op"))):
+                m = member(x.get("e"), f)
+                if m is not None:
+                    may.add(m)
                 reads(x.get("e"), defined)
                 return
             if k in ("Call", "MCall") and x.get("cdecl") in by_decl and (k == "Call" or x.get("obj") is None or (norm.strip(x.get("obj")) or {}).get("k") == "This") and depth < 3:
-                for a in x.get("a") or []:
-                    expr(a, defined)
                 tgt = by_decl[x["cdecl"]]
                 if tgt.cls == f.cls:
-                    d2, e2, u2 = analyse(tgt, depth + 1)
+                    for a2 in x.get("a") or []:
+                        expr(a2, defined, True)
+                    d2, e2, u2, m2 = analyse(tgt, depth + 1)
                     for m, l in e2:
                         if m not in defined:
                             early.append((m, l))
                     unknown.extend(u2)
+                    may.update(m2)
                     defined |= d2
                     return
             if k == "Lambda":
                 return
             m = member(x, f)
             if m is not None:
-                if m not in defined:
+                if value and m not in defined:
                     early.append((m, x.get("l")))
                 return
             for c in featlib.children(x):
-                expr(c, defined)
+                expr(c, defined, value)
+
+        def equality(c):
+            """(member, True if the condition being TRUE means member == other operand) for `m == e` / `m != e`"""
+            c = norm.strip(c)
+            if c is not None and c.get("k") == "Un" and c.get("op") == "!":
+                r = equality(c.get("e"))
+                return (r[0], not r[1]) if r else None
+            if c is not None and c.get("k") == "Bin" and c.get("op") in ("==", "!="):
+                for a2 in (c.get("lhs"), c.get("rhs")):
+                    m = member(a2, f)
+                    if m is not None:
+                        return m, c["op"] == "=="
+            return None
 
         def stmt(st, defined):
             """-> defined set after the statement, or None if the path ends"""
@@ -2606,33 +2634,47 @@ def check_setters(ck, tier):
             if k == "Decl":
                 for v in st.get("vars") or []:
                     if v.get("init") is not None and not ((v.get("ref") or f.type(v.get("t")).rstrip().endswith("&")) and member(v["init"], f)):
-                        expr(v["init"], defined)
+                        expr(v["init"], defined, True)
                 return defined
             if k == "If":
-                expr(st.get("c"), defined)
-                a = stmt(st.get("then"), set(defined))
-                b = stmt(st.get("else"), set(defined)) if st.get("else") is not None else set(defined)
+                expr(st.get("c"), defined, False)
+                cm = {member(y, f) for y in walk(st.get("c"))} - {None}
+                eq = equality(st.get("c"))
+                da, db = set(defined), set(defined)
+                if eq is not None:
+                    (da if eq[1] else db).add(eq[0])      # on that branch the member already holds the compared value
+                a = stmt(st.get("then"), da)
+                b = stmt(st.get("else"), db) if st.get("else") is not None else db
+                # a condition on the member's entry value that decides whether the member is stored
+                for m in cm:
+                    if m in defined:
+                        continue
+                    if a is not None and b is not None:
+                        if (m in a) != (m in b):
+                            early.append((m, st.get("l")))
+                    elif (a is None) != (b is None):
+                        # one branch leaves the function: judged at the end (does the leaving path store the member like the others?)
+                        pending.append((m, st.get("l")))
                 outs = [x for x in (a, b) if x is not None]
                 if not outs:
                     return None
-                ends.extend([x for x in (a, b) if x is None])
                 return set.intersection(*outs)
             if k in ("For", "While", "Do", "ForRange"):
                 if st.get("init") is not None:
-                    defined = stmt(st["init"], defined) if st["init"].get("k") in ("Decl", "Block") else (expr(st["init"], defined) or defined)
+                    defined = stmt(st["init"], defined) if st["init"].get("k") in ("Decl", "Block") else (expr(st["init"], defined, True) or defined)
                 inner = set(defined)
                 for part in ("c", "range"):
-                    expr(st.get(part), inner)
+                    expr(st.get(part), inner, False)
                 stmt(st.get("body"), inner)
-                expr(st.get("inc"), inner)
+                expr(st.get("inc"), inner, True)
                 return defined      # the body may not execute
             if k == "Return":
-                expr(st.get("e"), defined)
+                expr(st.get("e"), defined, True)
                 finals.append(set(defined))
                 return None
             if k == "Switch" and isinstance(st.get("body"), dict) and st["body"].get("k") == "Block":
                 # every label is an entry of a path from the switch head (fall-through joins), break leaves the switch
-                expr(st.get("c"), defined)
+                expr(st.get("c"), defined, False)
                 entry = set(defined)
                 outs = []
                 cur = None
@@ -2662,14 +2704,17 @@ def check_setters(ck, tier):
                 return defined
             if k == "Break" or k == "Continue":
                 return defined
-            expr(st, defined)
+            expr(st, defined, True)
             return defined
-        finals, ends = [], []
+        finals, pending = [], []
         d = stmt(f.body, set())
         if d is not None:
             finals.append(d)
         always = set.intersection(*finals) if finals else set()
-        memo[mk] = (always, early, unknown)
+        for m, l in pending:
+            if m in may and m not in always:
+                early.append((m, l))
+        memo[mk] = (always, early, unknown, may)
         return memo[mk]
 
     seen = set()
@@ -2678,17 +2723,15 @@ def check_setters(ck, tier):
             continue
         short = strip_targs(f.cls).rsplit("::", 1)[-1]
         argkind = "global" if f.params and "Global::Vector" in f.type(f.params[0]["t"]) else "local"
-        always, early, unknown = analyse(f)
-        stored = {member(n.get("lhs") if n.get("k") == "Assign" else (n.get("a") or [None])[0], f) for n in f.nodes()
-                  if n.get("k") == "Assign" or (n.get("k") == "OpCall" and n.get("op") in _ASSIGN_OPS and n.get("a"))}
-        stored = {m for m in stored if m} | always
+        always, early, unknown, may = analyse(f)
+        stored = set(may) | always
         for m in sorted(stored):
             key = "%s::%s(%s)/%s" % (short, f.name, argkind, m)
             if key in seen:
                 continue
             seen.add(key)
             bad = sorted({l for (m2, l) in early if m2 == m}, key=lambda x: x or 0)
-            problems = ["%s is read at line %s before this call has assigned it: the value stored by %s() depends on the member's previous value, i.e. on the history of calls (a setter overwrites)" % (m, l, f.name) for l in bad[:2]]
+            problems = ["%s (as it was on entry) is read at line %s before this call has assigned it and determines what %s() stores (or whether it stores at all): the state depends on the history of calls (a setter overwrites)" % (m, l, f.name) for l in bad[:2]]
             _finish(ck, rule, key, problems, unknown if not problems else [], "%s is assigned from the arguments of the call only" % m, f.file, f.line)
 
 
@@ -2916,6 +2959,7 @@ class SlotFlow:
         self.prepared = {}
         self.frames = [{"this": None, "ret": set(), "fn": fn, "path": ()}]
         self.lambdas = {}      # local variable key -> Lambda node (closures are evaluated where they are CALLED)
+        self.alias_field = {}  # reference local -> field of the local object it is bound to
         self.events = {}
         self.fresh = 0
         self.nslots = 0
@@ -3050,6 +3094,9 @@ class SlotFlow:
             r = self.root(init)
             if r is not None:
                 self.alias[key] = r
+                fld = self.field_of(init)
+                if fld is not None:
+                    self.alias_field[key] = fld
                 return frozenset()
         self.alias.pop(key, None)
         self.write(key, T, strong=True)
@@ -3159,6 +3206,20 @@ class SlotFlow:
             alias.update(a)
         self.tags, self.idx, self.alias = tags, idx, alias
 
+    def field_of(self, t0):
+        """outermost field of a local object that the lvalue / receiver expression t0 denotes (`tau.normal.negate()` -> normal),
+        also through a reference local bound to such a field (`auto& nrm = tau.normal;`)"""
+        fld = None
+        while isinstance(t0, dict) and t0.get("k") in ("Member", "Index", "OpCall", "MCall", "Cast", "Paren", "Ref"):
+            if t0.get("k") == "Ref":
+                return self.alias_field.get(("l", t0.get("d")), fld)
+            if t0.get("k") == "Member" and t0.get("field") and (t0.get("b") or {}).get("k") == "Ref":
+                fld = t0.get("n")
+                if ("l", t0["b"].get("d")) in self.alias_field:
+                    fld = self.alias_field[("l", t0["b"]["d"])]
+            t0 = t0.get("b") or t0.get("obj") or t0.get("e") or ((t0.get("a") or [None])[0])
+        return fld
+
     def ev_If(self, n):
         self.ev(n.get("init"))
         Tc = self.ev(n.get("c"))
@@ -3174,12 +3235,7 @@ class SlotFlow:
                         tgt = x.get("lhs")
                     elif x.get("k") == "OpCall" and x.get("op") in _ASSIGN_OPS and x.get("a"):
                         tgt = x["a"][0]
-                    fld = None
-                    t0 = tgt
-                    while isinstance(t0, dict) and t0.get("k") in ("Member", "Index", "OpCall", "MCall", "Cast", "Paren"):
-                        if t0.get("k") == "Member" and t0.get("field") and (t0.get("b") or {}).get("k") == "Ref":
-                            fld = t0.get("n")
-                        t0 = t0.get("b") or t0.get("obj") or t0.get("e") or ((t0.get("a") or [None])[0])
+                    fld = self.field_of(tgt)
                     r = self.root(tgt) if tgt is not None else None
                     if fld is not None and r is not None and r[0] == "l":
                         self.event("guard", x, self.read(r), Tc, "if(%s) %s" % (featlib.render(n.get("c"))[:60], featlib.render(x)[:60]), extra=fld)
@@ -3368,6 +3424,12 @@ class SlotFlow:
                 return self.indexed(n, a[0], a[1:])
         if op in _ASSIGN_OPS and a:
             T = frozenset().union(*[self.ev(x) for x in a[1:]]) if len(a) > 1 else frozenset()
+            if op != "=" and T and len(self.frames) == 1:
+                # `tau.normal *= sign`: the slot data the sign was computed from decides the modification of the field
+                fld = self.field_of(a[0])
+                r = self.root(a[0])
+                if fld is not None and r is not None and r[0] == "l":
+                    self.event("guard", n, self.read(r), T, featlib.render(n)[:80], extra=fld)
             if op != "=":
                 T = T | self.ev(a[0])
             else:
